@@ -345,6 +345,23 @@ def C17():
                 outside=["whole-handshake secrecy", "NTLM token contents"])
 
 
+def C03():
+    jobs = [
+        MirJob("c03_mir_connection_sequence", "mcs::Client::connect emits connect-initial, erect-domain, attach-user and one join per channel in that order, each only after the reply it depends on was read and checked; the user id of the attach-user confirm is kept, carried by every join request and checked in every confirm; Connector::connect runs negotiation, MCS connect, Client Info + licensing in order and builds the global channel from the assigned ids; finalization is synchronize, cooperate, request-control, font-list; shutdown sends one disconnect-provider ultimatum then closes",
+               mirjobs.connection_sequence),
+        MirJob("c03_mir_activation", "per demand-active: exactly one confirm-active followed by the finalization sequence, then the expected PDUs advance the state (shared with C12)", mirjobs.global_read),
+        MirJob("c03_mir_negotiation_first", "the negotiation request precedes everything and Client Info follows the security negotiation (shared with C02)",
+               mirjobs.must_follow_ok(r"^client::<impl at src/core/client\.rs[^>]*>::connect$", r"x224::Client::<S>::connect$", r"^connect::<S>$|mcs::Client::<S>::connect$", "Client Info / MCS connect")),
+    ]
+    return Prop("C03", [], jobs,
+                assumptions=["E3 explores every path of each function with call results unconstrained; the order is read off the successful paths"],
+                text="Reduced claim: the ORDER of the connection sequence, the dependence of every message on the preceding server reply, and the wiring of the server-assigned identifiers, decided on the MIR of mcs::Client::connect, Connector::connect, write_client_finalize, mcs::Client::shutdown and the activation automaton.",
+                note="NOT covered: that connecting SUCCEEDS against every conforming server and configuration - that needs the server replies to be parsed (size-dependent Component parses, BER) and the 150-field confirm-active to be emitted, which CBMC cannot execute (DESIGN §2); the bytes of the emitted messages are C04's (reduced) subject.",
+                technique="MIR symbolic path enumeration with dataflow and z3 fixedpoint reachability over the connection-sequence functions",
+                design_ref="DESIGN.md §4 C03 (reduced after E3 was built)",
+                outside=["success against arbitrary conforming servers", "contents of connect-initial / confirm-active / Client Info"])
+
+
 def C04():
     jobs = []
     for h, claim, q, mods in (
@@ -470,9 +487,9 @@ def C18():
                 outside=["records with size-dependent or skippable fields (Component::read/write with MessageOption::Size/SkipField: CBMC does not finish)", "nested containers", "BER/DER (yasna) structures", "GCC conference blocks", "Version::from table (known finding D14 is checked by c18_mir_version_table)"])
 
 
-PROPS = {"C01": C01, "C02": C02, "C04": C04, "C05": C05, "C06": C06, "C07": C07, "C08": C08, "C09": C09, "C10": C10, "C11": C11, "C12": C12, "C13": C13, "C14": C14, "C16": C16, "C17": C17, "C18": C18, "C19": C19}
+PROPS = {"C01": C01, "C02": C02, "C03": C03, "C04": C04, "C05": C05, "C06": C06, "C07": C07, "C08": C08, "C09": C09, "C10": C10, "C11": C11, "C12": C12, "C13": C13, "C14": C14, "C16": C16, "C17": C17, "C18": C18, "C19": C19}
 
-MIR_PROPS = ["C01", "C02", "C04", "C05", "C06", "C07", "C08", "C10", "C11", "C12", "C13", "C14", "C16", "C17", "C18"]
+MIR_PROPS = ["C01", "C02", "C03", "C04", "C05", "C06", "C07", "C08", "C10", "C11", "C12", "C13", "C14", "C16", "C17", "C18"]
 
 _TODO = "not claimed yet: machinery for this property is still being built (see DESIGN.md §4 for the plan)"
 NOT_APPLICABLE = {
